@@ -336,7 +336,7 @@ def run_query(ctx, q, cache, lock):
         if q.validate_iters:
             v = validate_cached(ctx, q, bins, cache, lock)
             r['translation_validation'] = v
-            sanitizer_abort = (not v['agree']) and ('Sanitizer' in v['real'] or 'runtime error' in v['real'])
+            sanitizer_abort = (not v['agree']) and ('Sanitizer' in v['real'] or 'runtime error' in v['real'] or 'ABORTING' in v['real'] or v['rc'][1] == 23)
             if not v['agree'] and not sanitizer_abort:
                 r['status'] = 'inconclusive'
                 r['reason'] = 'translated C and real g++ build disagree on random inputs (ll2c/model bug?)'
